@@ -52,6 +52,7 @@ type FrontSpec struct {
 	HandlerFlip   bool
 	CompleteEarly bool // grouped type declarations may be closed before lazy members are loaded (output then lacks those specs: only for byte comparison)
 	Writes        bool // files written mid-build and in scrambled order at the end
+	LateRefs      bool // functions referring to packages are added after a first round of writes
 }
 
 // Front draws a front-end schedule: 1/4 plain (source order, nothing lazy), the rest with
@@ -97,6 +98,11 @@ func Front(rt *rapid.T, spec FrontSpec) *run.Front {
 		if rapid.IntRange(0, 2).Draw(rt, "late_force") == 0 {
 			for i := rapid.IntRange(1, 3).Draw(rt, "nlate"); i > 0; i-- {
 				f.LateForce = append(f.LateForce, rapid.IntRange(0, 3).Draw(rt, "lfile"), rapid.IntRange(0, 6).Draw(rt, "lpath"))
+			}
+		}
+		if spec.LateRefs && rapid.IntRange(0, 2).Draw(rt, "late_ref") == 0 {
+			for i := rapid.IntRange(1, 2).Draw(rt, "nlateref"); i > 0; i-- {
+				f.LateRef = append(f.LateRef, rapid.IntRange(0, 3).Draw(rt, "rfile"), rapid.IntRange(0, 11).Draw(rt, "rpath"))
 			}
 		}
 		if rapid.Bool().Draw(rt, "reorder_writes") {
@@ -188,6 +194,12 @@ func SimplifyFront(f *run.Front) []*run.Front {
 	}
 	if f.Rewrites > 0 {
 		add(func(c *run.Front) { c.Rewrites = 0 })
+	}
+	if len(f.LateRef) > 0 {
+		add(func(c *run.Front) { c.LateRef = nil })
+		if len(f.LateRef) > 2 {
+			add(func(c *run.Front) { c.LateRef = append([]int(nil), c.LateRef[:2]...) })
+		}
 	}
 	if len(f.LateForce) > 0 {
 		add(func(c *run.Front) { c.LateForce = nil })
